@@ -442,7 +442,30 @@ def p_blocks(blocksize, w, h):
     return not msgs, "; ".join(msgs) or str((o["blockxsize"], o["blockysize"]))
 
 
-PREDICATES = {"roundtrip": p_roundtrip, "overwrite": p_overwrite, "blocks": p_blocks}
+def p_reject(shape, gshape):
+    """an array whose shape does not match the GeoBox is rejected (3-d: ValueError) and nothing is written"""
+    from odc.geo.cog import _rio as R
+
+    pix = np.zeros(tuple(shape), "uint8")
+    work = tempfile.mkdtemp(prefix="verif-c15-")
+    try:
+        p = Path(work) / "dest.tif"
+        p.write_bytes(b"precious")
+        err = None
+        try:
+            with warnings.catch_warnings():
+                warnings.simplefilter("ignore")
+                R._write_cog(pix, mk_gbox(gshape), p, overwrite=True)
+        except Exception as e:
+            err = e
+        kind_ok = isinstance(err, ValueError) if len(shape) != 2 else isinstance(err, (ValueError, AssertionError))
+        untouched = p.read_bytes() == b"precious"
+        return kind_ok and untouched, f"raised {type(err).__name__ if err else None}; destination {'untouched' if untouched else 'CHANGED'}"
+    finally:
+        shutil.rmtree(work, ignore_errors=True)
+
+
+PREDICATES = {"roundtrip": p_roundtrip, "overwrite": p_overwrite, "blocks": p_blocks, "reject": p_reject}
 
 
 def roundtrip_configs(tier):
@@ -522,6 +545,9 @@ def search(out, tier):
         out.count(f"roundtrip:dest:{cfg.get('dest', 'mem')}")
     for exists, ow, api in itertools.product([False, True], [False, True], ["write_cog", "write_cog_str", "write_cog_layers"]):
         run("overwrite", exists, ow, api)
+    for sh, gs in [((5, 7), (7, 5)), ((5, 7), (5, 8)), ((2, 5, 7), (7, 5)), ((5, 7, 2), (7, 5)), ((1, 1, 3), (2, 3)), ((3, 4, 5), (3, 5)),
+                   ((2, 2, 2), (2, 3)), ((7,), (7, 1)), ((1, 2, 5, 7), (5, 7)), ((4, 5, 6), (6, 4))]:
+        run("reject", sh, gs)
     for bs in [1, 15, 16, 17, 100, 256, 500, 512, 1000]:
         for w, h in [(0, 0), (1, 1), (15, 16), (17, 300), (255, 257), (511, 512), (513, 20), (5000, 3)]:
             run("blocks", bs, w, h)
